@@ -80,23 +80,34 @@ class ConcStage:
     """Records the histories (alone, before the TLC jobs load the machine), then validates
     them and model-checks NflogConc in background threads while the other stages run."""
 
-    def __init__(self, binp, wd, thorough, seed):
+    def __init__(self, binp, wd, thorough, seed, v):
         self.wd, self.thorough = wd, thorough
+        self.crashed = False
+        self.errors, self.chunks, self.mc, self.threads = [], [], {}, []
+        self.states = self.events = 0
+        self.tlc_wall = 0.0
         self.trace = os.path.join(wd, "conc.ndjson")
         out = os.path.join(wd, "conc.json")
         self.rounds = 20000 if thorough else 2000
         t0 = time.time()
         rc, txt = vlib.go_run_test(binp, "TestConc$", ["-trace", self.trace, "-out", out, "-n", str(self.rounds),
                                                       "-seed", str(seed), "-filler", "300", "-renew", "40"])
+        self.rec_wall = time.time() - t0
+        m = re.search(r"fatal error: (concurrent map[^\n]*)", txt)
+        if rc != 0 and m:
+            # the Go runtime kills the process when it sees unsynchronised access to the log's map
+            rp = os.path.join(wd, "conc_crash.txt")
+            open(rp, "w").write(txt[-20000:])
+            v.violation("the real nflog.Log used by several goroutines at once brings the process down: fatal error: %s "
+                        "(concurrent-history stage, seed %d; Log/Merge/Query/GC/MarshalBinary are called concurrently "
+                        "by the dispatcher, the gossip delegate and the maintenance goroutine)" % (m.group(1), seed), [rp])
+            self.crashed = True
+            self.rec = {"cases": 0, "steps": 0, "nontrivial": 0, "counters": {}, "samples": [], "mismatches": [], "n_mismatches": 0}
+            return
         if rc != 0:
             raise vlib.Inconclusive("concurrent harness failed:\n" + txt[-3000:])
         self.rec = vlib.load_result(out)
-        self.rec_wall = time.time() - t0
         self.lines = open(self.trace).read().splitlines()
-        self.errors = []
-        self.chunks = []
-        self.mc = {}
-        self.threads = []
         # chunks of whole rounds
         nchunk = 8 if thorough else 2
         starts = [i for i, x in enumerate(self.lines) if x.startswith('{"e":"reset"')]
@@ -114,7 +125,7 @@ class ConcStage:
             self._spawn(self._guard(sem, self._mc, name, cfg))
 
     def _mc(self, name, cfg):
-        self.mc[name] = vlib.tlc(PID, name, "MC_NflogConc", cfg, workers=4, timeout=1200 if self.thorough else 300)
+        self.mc[name] = vlib.tlc(PID, name, "MC_NflogConc", cfg, workers=4 if self.thorough else 2, timeout=1200 if self.thorough else 300)
 
     def _guard(self, sem, f, *a):
         def g():
@@ -137,6 +148,8 @@ class ConcStage:
             if isinstance(e, vlib.Inconclusive):
                 raise e
             raise vlib.Inconclusive("concurrent stage: %r" % e)
+        if self.crashed:
+            return
         rec, wd = self.rec, self.wd
         c = rec["counters"]
         reported = set()
@@ -177,7 +190,7 @@ class ConcStage:
             if disc * 10 > self.rounds:
                 raise vlib.Inconclusive("concurrent stage: %d of %d rounds discarded (time discipline broken: %s)" %
                                         (disc, self.rounds, {k: n for k, n in c.items() if k.startswith("trouble")}))
-            need = self.rounds // 10
+            need = self.rounds // 20
             if rec["nontrivial"] < need:
                 raise vlib.Inconclusive("concurrent stage: only %d rounds had a Log/Merge of an expired, uncollected key "
                                         "overlapping a GC (need %d)" % (rec["nontrivial"], need))
@@ -207,7 +220,7 @@ def run(tier, v):
     binp = vlib.go_build_test(PID, "c10")
 
     # 0. concurrent histories: recorded first, validated in the background
-    conc = ConcStage(binp, wd, thorough, seed)
+    conc = ConcStage(binp, wd, thorough, seed, v)
 
     # 1. the design: exhaustive model checking of the C10 invariants
     mc = vlib.tlc(PID, "mc", "MC_Nflog", "MC_Nflog_thorough.cfg" if thorough else "MC_Nflog.cfg",
@@ -279,7 +292,8 @@ def run(tier, v):
         "evaluations": evaluations,
         "distinct_nontrivial": nontrivial,
         "rule": "behaviours are distinct operation sequences printed by TLC from Gen_Nflog (all of length 3; "
-                "simulated of length 40); non-trivial = contains a Merge that refuses or ignores an entry, or a GC that drops one",
+                "simulated of length 40); non-trivial = contains a Merge that refuses or ignores an entry, or a GC that drops one; "
+                "concurrent rounds are seeded random schedules of real goroutines (counted in evaluations, not in distinct_nontrivial)",
         "mc_action_coverage": {a: g for a, (d, g) in mc.coverage.items()},
         "concurrent": {
             "rounds": conc.rec["cases"], "operations": conc.rec["steps"], "events_explained_by_tlc": conc.events,
